@@ -293,7 +293,7 @@ func bytesOfArray(a *ArrayV) (*smt.Term, bool) {
 	var sb strings.Builder
 	for _, e := range a.E {
 		t, ok := e.(*smt.Term)
-		if !ok {
+		if !ok || t.Sort.K != smt.KBV || t.Sort.W != 8 {
 			return nil, false
 		}
 		if t.IsConst() {
